@@ -25,6 +25,8 @@ def showErr : Err → String
   | .noVersions => "err:no-versions"
   | .storage => "err:storage"
   | .missingBlob => "err:missing-blob"
+  | .mcasMismatch => "err:mcas-mismatch"
+  | .mcasNotZero => "err:mcas-notzero"
 
 def showCfgDva : CfgDva → String
   | .unset => "0" | .future => "F" | .disabled => "N"
@@ -35,10 +37,10 @@ def showResp : Resp → String
   | .data v d del => s!"ok:{v}:{showData d}:{showDel del}:0"
   | .gone v del ds => s!"gone:{v}:{showDel del}:{showBool ds}"
   | .notFound => "notfound"
-  | .metaInfo cur old mx cr dva mv vers =>
+  | .metaInfo cur old mx cr dva mv vers cm =>
     let vs := if vers.isEmpty then "-" else
       ",".intercalate (vers.map fun (w, vm) => s!"{w}/{showDel vm.del}/{showBool vm.destroyed}")
-    s!"meta:cur={cur}:old={old}:max={mx}:casreq={showBool cr}:dva={if dva then "F" else "0"}:mv={mv}:{vs}"
+    s!"meta:cur={cur}:old={old}:max={mx}:casreq={showBool cr}:dva={if dva then "F" else "0"}:mv={mv}:{vs}:cm={showData cm}"
   | .conf mx cr dva => s!"conf:max={mx}:casreq={showBool cr}:dva={showCfgDva dva}"
   | .warn => "warn"
   | .err e => showErr e
@@ -80,6 +82,14 @@ def parseCfgDva (s : String) : Option (Option DvaArg) :=
   if s = "-" then some none else if s = "0" then some (some .zero) else if s = "F" then some (some .future)
   else if s = "N" then some (some .negative) else none
 
+/-- custom_metadata of a PUT: `-` absent, `{}` empty map, else k=v,… -/
+def parseOptCM (s : String) : Option (Option Data) :=
+  if s = "-" then some none else if s = "{}" then some (some []) else (parseData s).map some
+
+/-- custom_metadata of a PATCH: `-` absent, `{}` empty patch, else k=v,… with `~` = null -/
+def parseOptCMPatch (s : String) : Option (Option PatchData) :=
+  if s = "-" then some none else if s = "{}" then some (some []) else (parsePatch s).map some
+
 def parseOp (fs : List String) : Option Op :=
   match fs with
   | ["write", p, cas, d] => do pure (.write p (← parseCas cas) (← parseData d))
@@ -89,7 +99,10 @@ def parseOp (fs : List String) : Option Op :=
   | ["deletev", p, vs] => do pure (.deleteV p (← parseInts vs))
   | ["undelete", p, vs] => do pure (.undelete p (← parseInts vs))
   | ["destroy", p, vs] => do pure (.destroy p (← parseInts vs))
-  | ["metawrite", p, mx, cr, dva] => do pure (.metaWrite p (← parseOptInt mx) (← parseOptBool cr) (← parseMetaDva dva))
+  | ["metawrite", p, mx, cr, dva, cm, mcas] => do
+    pure (.metaWrite p ⟨← parseOptInt mx, ← parseOptBool cr, ← parseMetaDva dva, ← parseOptCM cm, ← parseOptInt mcas⟩)
+  | ["metapatch", p, mx, cr, dva, cm, mcas] => do
+    pure (.metaPatch p ⟨← parseOptInt mx, ← parseOptBool cr, ← parseMetaDva dva, ← parseOptCMPatch cm, ← parseOptInt mcas⟩)
   | ["metaread", p] => some (.metaRead p)
   | ["metadelete", p] => some (.metaDelete p)
   | ["confwrite", mx, cr, dva] => do pure (.confWrite (← parseOptInt mx) (← parseOptBool cr) (← parseCfgDva dva))
@@ -165,6 +178,7 @@ def stepLine (st : St) (fs : List String) : St × String :=
       ({ st with st := s' }, showResp r ++ (if fired then ":fired" else ":notfired"))
     | _, _, _ => (st, "bad-op")
   | ["conc", ops, prec, resps, p, obs] => concStep st ops prec resps p obs
+  | ["conc", ops, prec, resps, p, obs, _schedule] => concStep st ops prec resps p obs
   | _ =>
     match parseOp fs with
     | some op =>
